@@ -1,6 +1,7 @@
 mod c02;
 mod c06;
 mod c07;
+mod c08;
 mod c12;
 mod c13;
 mod c14;
@@ -45,6 +46,7 @@ fn main() {
     match property.as_str() {
         "C20" => c20::run(&mut ctx),
         "C07" => c07::run(&mut ctx),
+        "C08" => c08::run(&mut ctx),
         "C12" => c12::run(&mut ctx),
         "C06" => c06::run(&mut ctx),
         "C02" => c02::run(&mut ctx),
